@@ -49,6 +49,15 @@ func (e *Engine) ghostSet(st *State, name string, key, v *smt.Term) {
 			e.frameCheckRef(e.curFrame, st, key, "rstream", "")
 		}
 	}
+	if e.UseTokens && e.quiet == 0 {
+		// every write appends tokens of unknown shape, every read consumes some (contracts with token clauses say which)
+		switch name {
+		case gCount:
+			e.tokHavocWrite(st, key)
+		case gPos:
+			e.tokHavocRead(st, key)
+		}
+	}
 	st.Heap[name] = e.C.Store(e.ghost(st, name), key, v)
 }
 
